@@ -126,8 +126,6 @@ func init() {
 			out.Emit("cfg clp -", "ok", "cfg", false)
 		}
 
-		drawUpperHabit(rng)
-		out.Extra["upper_habit_accounts"] = len(upperHabit)
 		cases := mkCases(app, addrs)
 		out.Extra["handlers"] = len(cases)
 
@@ -166,7 +164,7 @@ func init() {
 			op := fmt.Sprintf("msg %s %s %s", hc.module, hc.name, signerStr)
 			if hc.payload != nil {
 				r, a := hc.payload(k)
-				op += " " + r + " " + a
+				op += " " + r + " " + a + " " + canonOf(a)
 			}
 			cls := fmt.Sprintf("%s.%s.%s", hc.module, hc.name, res)
 			// the chk line comes first: the predicate is judged against the role stores the message met,
@@ -210,22 +208,21 @@ func init() {
 				updatePools = hc
 			}
 		}
-		for _, acct := range []int{12, 11} {
-			kk := 5 + 6*acct
+		span := 6 * NACC
+		for _, sp := range []int{0, 5} { // named in lower case / in upper case throughout
+			acct := 11 + sp/5
+			kk := 5 + 6*acct + sp*span
 			run(cases[0], addrs[10], kk)          // AddAccount(MARGIN, acct) by an ADMIN
 			run(updatePools, addrs[acct], 6*acct) // use
 			run(cases[1], addrs[10], kk)          // RemoveAccount(MARGIN, acct), same spelling
 			run(updatePools, addrs[acct], 6*acct) // the very next message of acct
 		}
-		if replay == "mixedspelling" {
-			// Observation (not part of the default run): granted in lower case, removed in upper case
-			upperHabit[11] = false
-			run(cases[0], addrs[10], 5+6*11)
-			upperHabit[11] = true
-			run(cases[1], addrs[10], 5+6*11)
-			upperHabit[11] = false
-			run(updatePools, addrs[11], 6*11)
-		}
+		// mixed (F24): granted in lower case, removal attempted in upper case, then in lower case
+		run(cases[0], addrs[10], 5+6*13)
+		run(cases[1], addrs[10], 5+6*13+5*span)
+		run(updatePools, addrs[13], 6*13)
+		run(cases[1], addrs[10], 5+6*13)
+		run(updatePools, addrs[13], 6*13)
 		for out.N < n {
 			k++
 			var hc handlerCase
@@ -236,7 +233,7 @@ func init() {
 			}
 			// signer of the table change: mostly an ADMIN holder (4 or 10), sometimes anybody
 			s := addrs[[]int{4, 10, 4, 10, 10, rng.Intn(NACC)}[rng.Intn(6)]]
-			kk := rng.Intn(len(roles) * NACC)
+			kk := rng.Intn(len(roles) * NACC * 8)
 			run(hc, s, kk)
 			target := addrs[(kk/len(roles))%NACC]
 			for j := 0; j < 6; j++ {
@@ -253,21 +250,20 @@ func init() {
 
 // Spellings.  bech32 is case-insensitive as long as the case is not mixed: "SIF1…" decodes to the same account as
 // "sif1…", but AccAddress.String() always yields the lower-case form.  The role table of x/admin is keyed by the
-// string it is given, so spellings are a dimension of the matrix:
-//   - upperHabit: accounts that are ALWAYS named in upper case in AddAccount / RemoveAccount payloads (one spelling per
-//     account and history; only accounts without a set-up entry, which are stored canonically);
-//   - other address-typed payload fields and the Signer field itself use the upper-case form now and then.
-var upperHabit = map[int]bool{}
-
+// string it is given, so spellings are a dimension of the matrix: AddAccount / RemoveAccount name accounts in lower
+// case, in upper case or by a string that is no address, independently per message (so a role may be granted under
+// one spelling and removed under another); other address-typed payload fields and the Signer field itself use the
+// upper-case form now and then.
 func upperOf(a sdk.AccAddress) string { return strings.ToUpper(a.String()) }
 
-func drawUpperHabit(rng *Rng) {
-	upperHabit = map[int]bool{12: true}
-	for _, i := range []int{7, 8, 9, 11, 13} {
-		if rng.Chance(1, 2) {
-			upperHabit[i] = true
-		}
+// canonOf: the canonical string of the account a spelling denotes according to cosmos-sdk's bech32 code
+// ("-" if it denotes none) — an environment value for the model, which has no bech32 checksum code
+func canonOf(spelling string) string {
+	acc, err := sdk.AccAddressFromBech32(spelling)
+	if err != nil {
+		return "-"
 	}
+	return acc.String()
 }
 
 var authRoles = []admintypes.AdminType{admintypes.AdminType_CLPDEX, admintypes.AdminType_PMTPREWARDS, admintypes.AdminType_TOKENREGISTRY,
@@ -282,10 +278,15 @@ func mkCases(app *sifapp.SifchainApp, addrs []sdk.AccAddress) []handlerCase {
 	pay := func(k int) (admintypes.AdminType, sdk.AccAddress) {
 		return roles[k%len(roles)], addrs[(k/len(roles))%NACC]
 	}
-	tableSpelling := func(k int) string { // the spelling an account is named with in AddAccount / RemoveAccount
+	// the spelling an account is named with in AddAccount / RemoveAccount: chosen by the payload index k
+	// (k / (6·NACC)) mod 8: 0..4 canonical lower case, 5,6 all upper case (valid, the same account), 7 not an address
+	tableSpelling := func(k int) string {
 		i := (k / len(roles)) % NACC
-		if upperHabit[i] {
+		switch (k / (len(roles) * NACC)) % 8 {
+		case 5, 6:
 			return upperOf(addrs[i])
+		case 7:
+			return addrs[i].String()[:len(addrs[i].String())-1] + "x"
 		}
 		return addrs[i].String()
 	}
